@@ -781,6 +781,7 @@ func (m *mon) submitOnFork(ec evCase) {
 	ec.Mode = "fork"
 	ver := m.refVerdict(ec)
 	msg := m.evidenceMsg(ec)
+	m.rec.Op(map[string]any{"h": c.Height, "op": "fork-evidence", "kind": ec.Kind, "actor": ec.Sender.Name, "chain": ec.ChainRef, "cp": ver.CP, "issued": ver.Issued, "signer": ver.Signer})
 	fork := c.Fork(c.Height+1, c.Time.Add(2*time.Second))
 	before := m.jailedFlags(fork)
 	cctx, write := fork.CacheContext()
